@@ -2,6 +2,7 @@
 import z3
 from .vals import *
 from .state import Unsupported, Ev
+from .ir import short
 
 MODELS = {}
 
@@ -277,3 +278,32 @@ def _sprintf(eng, fr, st, name, args, rtypes, ins):
     if not ls:
         return NotImplemented
     return [(st, uf(name + "/%d" % len(ls), [l.sort() for l in ls], Str)(*ls))]
+
+
+# ---------------------------------------------------------------- errgroup (join of spawned goroutines)
+@model("(*golang.org/x/sync/errgroup.Group).Go")
+def _eg_go(eng, fr, st, name, args, rtypes, ins):
+    """the function runs in a new goroutine; Wait joins it: what it may acquire is acquired, as far as lock order goes, by whoever waits"""
+    f = args[1] if len(args) > 1 else None
+    acq = None
+    fname = None
+    if isinstance(f, FuncV) and f.fn:
+        fname = f.fn
+        d = eng.contract_for(f.fn)
+        if d is not None:
+            acq = frozenset(d.attrs.get("acq") or ())
+    if acq is None:
+        acq = frozenset(["?effect-of-%s" % (short(fname) if fname else "a function value")])
+    st.ghost["eg_joined"] = (st.ghost.get("eg_joined") or frozenset()) | acq
+    st.log(fname or "dyn.func", list(f.bindings) if isinstance(f, FuncV) else [], [], ins.get("pos"), "go")
+    return [(st, None)]
+
+
+@model("(*golang.org/x/sync/errgroup.Group).Wait")
+def _eg_wait(eng, fr, st, name, args, rtypes, ins):
+    joined = st.ghost.get("eg_joined") or frozenset()
+    for c in sorted(joined):
+        eng.check_order(st, c, ins, via="errgroup.Wait (it joins goroutines that acquire that lock)")
+    eng.note_acquired(st, [c for c in joined if not c.startswith("?")])
+    e = st.fresh("error", "egerr")
+    return [(st, e)]
